@@ -66,11 +66,38 @@ theorem C14_stale_refused (r : Repo) (id : Str) (m : Meta) (keep : Digest → Li
   rcases commit_cases r id m keep hasRoot with ⟨e, he, hmain, _⟩ | ⟨o', hs', _, hcase, _, _⟩
   · exact ⟨⟨e, he⟩, hmain⟩
   · rw [hs] at hs'; cases hs'
-    rcases hcase with ⟨hnone, _, _⟩ | ⟨old', hold', hh⟩
+    rcases hcase with ⟨hnone, _, _⟩ | ⟨old', hold', hh, _⟩
     · rw [hm] at hnone; cases hnone
     · rw [hm] at hold'; cases hold'
       rw [prepareCommit_head] at hh
       exact absurd hh hstale
+
+/-- **replaced object**: if the object in the main repository does not carry the history the staged
+    version was built on — it was purged and created again by another client, even with as many
+    versions — commit fails and the main repository is unchanged: no committed version is overwritten
+    or silently merged -/
+theorem C14_replaced_object_refused (r : Repo) (id : Str) (m : Meta) (keep : Digest → List CPath) (hasRoot : Bool)
+    (old o : Obj) (hm : AL.get r.main id = some old) (hs : AL.get r.staged id = some o)
+    (hdiff : continuesHistory (prepareCommit o m keep).inv old.inv = false) :
+    (∃ e, (commit r id m keep hasRoot).1 = .error e) ∧ (commit r id m keep hasRoot).2.main = r.main := by
+  rcases commit_cases r id m keep hasRoot with ⟨e, he, hmain, _⟩ | ⟨o', hs', _, hcase, _, _⟩
+  · exact ⟨⟨e, he⟩, hmain⟩
+  · rw [hs] at hs'; cases hs'
+    rcases hcase with ⟨hnone, _, _⟩ | ⟨old', hold', _, hc⟩
+    · rw [hm] at hnone; cases hnone
+    · rw [hm] at hold'; cases hold'
+      rw [hdiff] at hc; cases hc
+
+/-- a successful commit of a new version implies the main object carried exactly the staged history -/
+theorem C14_commit_continues_history (r : Repo) (id : Str) (m : Meta) (keep : Digest → List CPath) (hasRoot : Bool)
+    (old : Obj) (hm : AL.get r.main id = some old) (h : (commit r id m keep hasRoot).1 = .ok ()) :
+    ∃ o, AL.get r.staged id = some o ∧ continuesHistory (prepareCommit o m keep).inv old.inv = true := by
+  rcases commit_cases r id m keep hasRoot with ⟨e, he, _⟩ | ⟨o, hs, _, hcase, _, _⟩
+  · rw [he] at h; cases h
+  · rcases hcase with ⟨hnone, _, _⟩ | ⟨old', hold', _, hc⟩
+    · rw [hm] at hnone; cases hnone
+    · rw [hm] at hold'; cases hold'
+      exact ⟨o, hs, hc⟩
 
 /-- a successful commit creates exactly the next version: the committed head is the previous main head
     plus one (1 for a new object), with the staged version's padding width -/
